@@ -15,11 +15,18 @@
         w (os/proc-wait in its own fiber) | x (the same, the fiber is cancelled while it waits) | c (os/proc-close in its own fiber)
         | R (the child exits: the reaper delivers <status> as soon as / if somebody waits)
    Output:  one token per w / x / c: val:<status> | err (cannot wait twice) | nil | cancelled | pending;  rc=<return code|none> closed=<n>
+     NC <event>:<k<res>|f<errno>> …        net_callback_connect on a sequence of JanetAsyncEvent numbers, each with the getsockopt(SO_ERROR) answer held ready
+   Output:  one token per delivered event  <p|ok|closed|so<res>|sys<errno>>/<toclose 0|1>/<getsockopt calls>   (stops when the operation ended)
+     NA <loop 0|1> <event>:<c0|f<errno>> …  net_callback_accept (loop = accept-loop) with the accept4 answer held ready
+   Output:  one token per delivered event  <p|acc|nil>/<h|->/<accept4 calls>     (h: a handler fiber was scheduled with the accepted connection)
+   The case groups of the two switches are the regenerated Gen.Net lists.
 -/
 import Driver.Util
 import JanetModel.Stream.Model
 import JanetModel.Gen.ProcStat
 import JanetModel.Proc.SpawnLemmas
+import JanetModel.Stream.Net
+import JanetModel.Gen.Net
 open Driver JanetModel.Stream
 
 def parseAns (t : String) : Option Ans :=
@@ -210,6 +217,57 @@ def showOutcome : JanetModel.Proc.Outcome → String
   | .code n => toString n
   | .panic => "panic"
 
+namespace N
+open JanetModel.Stream.Net
+
+def parseTok (t : String) : Option (AEv × Char × Nat) :=
+  match t.splitOn ":" with
+  | [c, a] =>
+    match c.toNat?.bind AEv.ofCode, a.toList with
+    | some ev, k :: r => (String.ofList r).toNat?.map (fun n => (ev, k, n))
+    | _, _ => none
+  | _ => none
+
+def b01 (b : Bool) : String := if b then "1" else "0"
+
+def showC (o : COut) : String :=
+  let r := match o.res with
+    | .pending => "p"
+    | .connected => "ok"
+    | .failed .closed => "closed"
+    | .failed (.soError r) => s!"so{r}"
+    | .failed (.sys e) => s!"sys{e}"
+  s!"{r}/{b01 o.toclose}/{b01 o.asked}"
+
+def runC : List String → List String → Option (List String)
+  | [], acc => some acc.reverse
+  | t :: ts, acc =>
+    match parseTok t with
+    | some (ev, k, n) =>
+      let a : SoAns := if k == 'k' then .ok n else .fail n
+      let o := connectStep JanetModel.Gen.Net.connectQuiet JanetModel.Gen.Net.connectClose ev a
+      if o.res == .pending then runC ts (showC o :: acc) else some ((showC o :: acc).reverse)
+    | none => none
+
+def showA (o : AOut) : String :=
+  let r := match o.res with
+    | .pending => "p"
+    | .accepted _ => "acc"
+    | .nil => "nil"
+  s!"{r}/{if o.spawned.isSome then "h" else "-"}/{b01 o.asked}"
+
+def runA (loop : Bool) : List String → List String → Option (List String)
+  | [], acc => some acc.reverse
+  | t :: ts, acc =>
+    match parseTok t with
+    | some (ev, k, n) =>
+      let a : AccAns := if k == 'c' then .conn 1 else .fail n
+      let o := acceptStep JanetModel.Gen.Net.acceptTry JanetModel.Gen.Net.acceptClose loop ev a
+      if o.res == .pending then runA loop ts (showA o :: acc) else some ((showA o :: acc).reverse)
+    | none => none
+
+end N
+
 def step (_ : Unit) (toks : List String) : Unit × String :=
   match toks with
   | "L" :: st :: ops =>
@@ -230,6 +288,14 @@ def step (_ : Unit) (toks : List String) : Unit × String :=
         ((), P.run JanetModel.Gen.ProcStat.movesStdSources ⟨sp == "1", ri, ro, re⟩ ⟨pin, pout, perr, t0, t1, t2, ok == "1", din, dout, derr⟩ (P.tabOf op) q)
       | _, _, _, _, _, _ => ((), "parse-error")
     | _, _, _, _, _, _, _ => ((), "parse-error")
+  | "NC" :: rest =>
+    match N.runC rest [] with
+    | some out => ((), String.intercalate " " out)
+    | none => ((), "parse-error")
+  | "NA" :: lp :: rest =>
+    match N.runA (lp == "1") rest [] with
+    | some out => ((), String.intercalate " " out)
+    | none => ((), "parse-error")
   | "W" :: len :: dg :: rest =>
     match len.toNat?, parseAnss rest with
     | some len, some as =>
